@@ -295,6 +295,12 @@ fn contexts(r: Vec<N>) -> Vec<Vec<N>> {
         vec![e("em", vec![e("ul", vec![e("li", r.clone())])]), e("p", vec![t("z")])],
         vec![e("ul", vec![e("li", vec![e("blockquote", vec![ea("pre", &bg, r.clone())])])]), e("p", vec![t("z")])],
         vec![e("table", vec![e("tr", vec![e("td", vec![ea("table", &col, vec![e("tr", vec![e("td", r.clone())])])]), e("td", vec![t("z")])])]), e("p", vec![t("y")])],
+        // a styled cell inside an annotated context, followed by a sibling cell and by text in that context
+        vec![e("em", vec![e("table", vec![e("tr", vec![ea("td", &col, r.clone()), e("td", vec![t("z")])])]), t("y")])],
+        vec![ea("div", &bg, vec![e("table", vec![e("tr", vec![ea("td", &[("bgcolor", "#212223")], r.clone()), e("td", vec![t("z")])]), e("tr", vec![e("td", vec![t("y")]), e("td", vec![t("w")])])]), e("p", vec![t("v")])])],
+        // nested table inside a coloured cell (e-mail style markup)
+        vec![e("table", vec![e("tr", vec![ea("td", &col, vec![e("table", vec![e("tr", vec![ea("td", &bg, r.clone()), e("td", vec![t("z")])])]), t("y")]), e("td", vec![t("w")])])]), e("p", vec![t("v")])],
+        vec![e("strong", vec![e("ul", vec![ea("li", &col, r.clone()), e("li", vec![t("z")])]), t("y")])],
     ]
 }
 
@@ -319,8 +325,8 @@ impl Scope for S {
     }
     fn info(&self) -> Info {
         Info {
-            rule: "inline nestings (every chain of wrappers up to the stated depth over 13 wrappers incl. links, images, sup, inline-style / class / color= colours) in two run shapes x 19 block contexts (p, li, quote, heading, table cell, dt, dd, pre, div, coloured div/table/tr/td/ul/li/ol/blockquote, list inside em, pre in quote in list, nested table) x every width (so every token is also seen wrapped); expected vectors from the oracle DOM; non-trivial = some piece carries >= 2 annotations or the output has >= 2 lines".into(),
-            bounds: json!({"chains": self.chains.len(), "max_chain_depth": self.chains.iter().map(|c| c.len()).max(), "wrappers": INL.iter().map(|w| format!("{}{:?}", w.0, w.1)).collect::<Vec<_>>(), "contexts": 19, "widths": format!("1..={}", self.maxw)}),
+            rule: "inline nestings (every chain of wrappers up to the stated depth over 13 wrappers incl. links, images, sup, inline-style / class / color= colours) in two run shapes x 23 block contexts (p, li, quote, heading, table cell, dt, dd, pre, div, coloured div/table/tr/td/ul/li/ol/blockquote, list inside em, pre in quote in list, nested table, styled cells inside annotated contexts followed by siblings) x every width (so every token is also seen wrapped); expected vectors from the oracle DOM; non-trivial = some piece carries >= 2 annotations or the output has >= 2 lines".into(),
+            bounds: json!({"chains": self.chains.len(), "max_chain_depth": self.chains.iter().map(|c| c.len()).max(), "wrappers": INL.iter().map(|w| format!("{}{:?}", w.0, w.1)).collect::<Vec<_>>(), "contexts": 23, "widths": format!("1..={}", self.maxw)}),
             assumptions: vec!["RichAnnotation::Default (pushed for <sup>) is treated as neutral".into(), "Preformat's continuation flag is C12's subject and is ignored here".into(), "colours come from single uncontested declarations (the cascade is C19's subject)".into()],
         }
     }
